@@ -415,7 +415,7 @@ func main() {
 		}
 		os.Exit(0)
 	}
-	c.Rule = "schedule part: one case = one complete interleaving of collector threads and a snapshot thread at atomic/lock granularity (map iteration order included); distinct = distinct (snapshots, final) record per scenario. API part: one case = one request history over the alphabet; all distinct. Recording parts: one case = one interleaving (delay-bounded) of a real TCP relay session (tcprecord, the family of lib/tcprelay) or of two UDP client sessions through a real UDP relay (udprecord: 4 server protocols x 2 batch modes); the collector's figures are compared with the bytes the harness saw delivered."
+	c.Rule = "schedule part: one case = one complete interleaving of collector threads and a snapshot thread at atomic/lock granularity (map iteration order included); distinct = distinct (snapshots, final) record per scenario. API part: one case = one request history over the alphabet; all distinct. Recording parts: one case = one interleaving (delay-bounded) of a real TCP relay session (tcprecord, the family of lib/tcprelay) or of two UDP client sessions through a real UDP relay (udprecord: {none, socks5, ss2022, ss2022 multi-user, direct} x 2 batch modes); the collector's figures are compared with the bytes the harness saw delivered."
 	c.Assumptions = []string{"sequential consistency", "deviation-bounded (preemptions + map-order rotations); bound reported per scenario", "API histories exhaustive to the stated depth over the stated alphabet", "recording parts: in-memory TCP connections / real loopback UDP sockets with scheduler-mediated readiness; a queued packet returned to its sync.Pool is scribbled over at once (a legal behaviour of a concurrent Get), so reads after Put are visible; transparent relay not run"}
 	c.SigOf = func(name, param, msg string) string {
 		if name == "udprecord" || name == "tcprecord" {
